@@ -604,12 +604,12 @@ func c06(c *core.Ctx) {
 				case *ssa.Call:
 					if bi, isB := v.Call.Value.(*ssa.Builtin); isB && bi.Name() == "append" {
 						base := v.Call.Args[0]
-						for x := range core.Slice(base) {
+						for x := range core.SliceShallow(base) {
 							if _, isMk := x.(*ssa.MakeSlice); isMk {
 								fresh = true
 							}
 						}
-						if core.SliceHasField(core.Slice(base), sig) {
+						if core.SliceHasField(core.SliceShallow(base), sig) {
 							// appending to the field's current value: only fine when a fresh make was stored into the field on every path before
 							fresh = freshStoreDominates(fn, sig, st)
 						}
@@ -627,7 +627,7 @@ func c06(c *core.Ctx) {
 			f := c.Fn(fnSpec)
 			out := map[string]string{}
 			for _, ci := range core.CallsIn(f, c.FuncObj("chain/types.rlpHash")) {
-				for v := range core.Slice(ci.Common().Args[0]) {
+				for v := range core.SliceShallow(ci.Common().Args[0]) {
 					switch x := v.(type) {
 					case *ssa.FieldAddr, *ssa.Field:
 						if fv := core.FieldOf(x.(ssa.Value)); fv != nil {
@@ -649,7 +649,7 @@ func c06(c *core.Ctx) {
 						collect = func(fn *ssa.Function, depth int) {
 							for _, r := range core.Returns(fn) {
 								for _, res := range r.Results {
-									for y := range core.Slice(core.ResolveSpill(res)) {
+									for y := range core.SliceShallow(core.ResolveSpill(res)) {
 										if fv := core.FieldOf(y); fv != nil {
 											for i := 0; i < data.NumFields(); i++ {
 												if data.Field(i) == fv {
